@@ -1,6 +1,6 @@
 (* C07/Examples.v — non-vacuity: concrete values meeting the hypotheses of each
    implication of Props.v, and the model's behaviour on small inputs. *)
-From V Require Import Base.Text C07.Model C07.Lemmas.
+From V Require Import Base.Text C07.Model C07.Lemmas C07.Run.
 From Coq Require Import Sorted.
 Open Scope N_scope.
 
@@ -185,3 +185,7 @@ Example truncate_example :   (* a<LF><LF><LF> keeps a<LF> *)
   format_lines c3 [] all_lines (nrm [97; 10; 10; 10]) = Some ([], 2)
   /\ trailing_lfs (nrm [97; 10; 10; 10]) = 3.
 Proof. vm_compute. auto. Qed.
+
+(* a skip-marked item of three lines (attribute on source line 6) that moved up to output line 2: range 3..4 *)
+Example skip_range_moved : run_skip_range 6 6 7 2 1 = (true, 3, 4).
+Proof. vm_compute. reflexivity. Qed.
